@@ -183,12 +183,13 @@ PROPS = {
     trusted=[FLOAT_TB, 'panics inside chrono / slice::sort / regex-lite, memory and time are visible only to the crash-observing run'],
  ),
  'C14': dict(
-    modules=['SlacProps.C14'], regen=True,
+    modules=['SlacProps.C14', 'SlacProps.C14Nondet'], regen=True,
     streams=[
         dict(name='rep', n=n(100, 1500), model=False, oracle='none', laws=['stable'], tz='CET-1CEST,M3.5.0,M10.5.0/3'),
         dict(name='call', n=n(100, 2500), oracle='none', repeat_process=True, tz='CET-1CEST,M3.5.0,M10.5.0/3'),
+        dict(name='nd', n=n(20000, 300000), oracle='none', laws=['nd']),
     ],
-    rule='rep: every pure builtin x n argument lists, each evaluated 20 times in one process with other calls in between; call: the same lists evaluated in two separate processes (differently seeded hashers) and compared, '
+    rule='nd: the two impure builtins (random, choice): an answer recorded at generation time is checked against the model with the OS random word explicit (is there a word that gives this answer?), and 8 fresh answers per case against the same relation on the crate; rep: every pure builtin x n argument lists, each evaluated 20 times in one process with other calls in between; call: the same lists evaluated in two separate processes (differently seeded hashers) and compared, '
          'and compared with the model (a Lean function of the arguments). Arrays whose elements are equal across kinds (1, \'1\', true) are over-represented',
     trusted=[FLOAT_TB, '"fresh process, different hasher seed" is an observation, not a theorem'],
  ),
